@@ -100,6 +100,13 @@ var c13OpenFrags = []struct{ name, text string }{
 	{"unterminated double-quoted string", `a = "abc;`},
 	{"unterminated single-quoted string", `a = 'abc;`},
 	{"unterminated string with escape at end", `a = "abc\`},
+	{"single-quoted string whose only closing quote is escaped", `a = 'abc\';`},
+	{"double-quoted string whose only closing quote is escaped", `a = "abc\";`},
+	{"single-quoted string with an escaped quote inside and no end", `a = 'it\'s;`},
+	{"double-quoted string ending in an escaped backslash and an escaped quote", `a = "abc\\\";`},
+	{"single-quoted string closed by the other quote", `a = 'abc";`},
+	{"double-quoted string closed by the other quote", `a = "abc';`},
+	{"regexp whose only closing slash is escaped", `a = b ~= /abc\/;`},
 	{"unterminated regexp", `a = b ~= /abc;`},
 	{"unterminated block", "if (a) { b = 1;"},
 	{"unterminated else block", "if (a) { b = 1; } else { b = 2;"},
